@@ -1,2 +1,3 @@
 import JdSpec.CanonEq
 import JdSpec.HunkSem
+import JdSpec.FloatLaws
